@@ -67,43 +67,23 @@ def cache_point_rule(chk, repo: Repo, rule: str, classes) -> int:
                 if path_of(core) == p:
                     chk.ok(rule, inst, site(repo, s), "re-representation of the cached value itself")
                     continue
-                # (a) evaluation at the current point
+                if g is None:
+                    g = CFG(fn)
+                    rd = ReachingDefs(g)
+                node = g.node_of(s)
+
+                def alias_of_point(name):
+                    """a local bound (on every reaching definition) to self.current_point or a copy of it"""
+                    ds = [g.nodes[i] for i in rd.reaching(node, name) if i != g.entry.id]
+                    return bool(ds) and all(isinstance(d.ast, ast.Assign) and path_of(d.ast.targets[0]) == name and path_of(_strip_copy(d.ast.value)) == POINT for d in ds)
+
+                # where was the stored value evaluated?  directly `f(point, ...)`, or a local bound by `x[, y] = f(point, ...)`
+                evals: Optional[List[Optional[str]]] = None
                 if isinstance(core, ast.Call) and core.args:
-                    at = path_of(core.args[0])
-                    if at and "." not in at:          # a local alias of the current point (x = self.current_point) counts as the point
-                        if g is None:
-                            g = CFG(fn)
-                            rd = ReachingDefs(g)
-                        ds = [g.nodes[i] for i in rd.reaching(g.node_of(s), at) if i != g.entry.id]
-                        if ds and all(isinstance(d.ast, ast.Assign) and path_of(d.ast.targets[0]) == at and path_of(_strip_copy(d.ast.value)) == POINT for d in ds):
-                            at = POINT
-                    if at == POINT:
-                        chk.ok(rule, inst, site(repo, s), f"`{unparse(core)[:50]}` evaluates at self.current_point")
-                        continue
-                    # evaluated at something else: fine only if that something becomes the current point in this block
-                    blk = _block_of(s)
-                    adopted = [b for b in blk if isinstance(b, ast.Assign) and path_of(b.targets[0]) == POINT and path_of(_strip_copy(b.value)) == at and at]
-                    chk.add(rule, inst, bool(adopted), site(repo, s), f"evaluates at `{at}`, which the same block adopts as current point",
-                            f"`{unparse(s)[:90]}` stores the evaluation at `{unparse(core.args[0])[:40]}` in the cache that memoises the target at "
-                            f"self.current_point, and that point is not adopted as current point here: whenever the two differ (a restarted warm-up, a "
-                            f"continued run) the next transition starts from an energy / gradient that belongs to another state", s)
-                    continue
-                # (b) a local: paired with the point write in the same block
-                blk = _block_of(s)
-                pw = [b for b in blk if isinstance(b, ast.Assign) and path_of(b.targets[0]) == POINT]
-                if not pw:
-                    chk.fail(rule, inst, site(repo, s), f"`{unparse(s)[:80]}` updates the cache without the current point being updated in the same block "
-                             f"(point and cache can drift apart)", s)
-                    continue
-                newpt = path_of(_strip_copy(pw[0].value))
-                ok, why = True, "paired with the write of self.current_point in the same block"
-                if isinstance(core, ast.Name) and newpt:
-                    if g is None:
-                        g = CFG(fn)
-                        rd = ReachingDefs(g)
-                    node = g.node_of(s)
+                    evals = [path_of(core.args[0])]
+                elif isinstance(core, ast.Name):
                     defs = [g.nodes[i] for i in rd.reaching(node, core.id) if i != g.entry.id]
-                    evals = []
+                    found = []
                     for d in defs:
                         a = d.ast
                         if isinstance(a, ast.Assign) and isinstance(a.value, ast.Call) and a.value.args and len(a.targets) == 1:
@@ -111,12 +91,32 @@ def cache_point_rule(chk, repo: Repo, rule: str, classes) -> int:
                             names = [x.id for x in (tg.elts if isinstance(tg, ast.Tuple) else [tg]) if isinstance(x, ast.Name)]
                             cn = call_name(a.value) or ""
                             if core.id in names and re.search(r"(logd|gradient|_nuts_target|_loglikelihood|logpdf)$", cn):
-                                evals.append(path_of(a.value.args[0]))
-                    if evals and any(e != newpt for e in evals):
-                        ok = False
-                        why = (f"`{core.id}` is the evaluation at `{[e for e in evals if e != newpt][0]}`, but the point adopted in this block is `{newpt}`: "
-                               f"the cache belongs to a different state than self.current_point")
-                    elif evals:
-                        why = f"`{core.id}` = evaluation at `{newpt}`, the local adopted as current point in the same block"
-                chk.add(rule, inst, ok, site(repo, s), why, why, s)
+                                found.append(path_of(a.value.args[0]))
+                                continue
+                        found = None
+                        break
+                    if found:
+                        evals = found
+                if evals is not None:
+                    evals = [POINT if (e and "." not in e and alias_of_point(e)) else e for e in evals]
+                    if all(e == POINT for e in evals):
+                        chk.ok(rule, inst, site(repo, s), f"`{unparse(v)[:50]}` is the evaluation at self.current_point")
+                        continue
+                    other = [e for e in evals if e != POINT]
+                    blk = _block_of(s)
+                    adopted = [b for b in blk if isinstance(b, ast.Assign) and path_of(b.targets[0]) == POINT and other[0] and path_of(_strip_copy(b.value)) == other[0]]
+                    ok = bool(adopted) and len(set(other)) == 1 and len(other) == len(evals)
+                    chk.add(rule, inst, ok, site(repo, s), f"evaluated at `{other[0]}`, which the same block adopts as current point",
+                            f"`{unparse(s)[:90]}` stores the evaluation at `{other[0]}` in the cache that memoises the target at "
+                            f"self.current_point, and that point is not adopted as current point here: whenever the two differ (a restarted warm-up, a "
+                            f"continued run) the next transition starts from an energy / gradient that belongs to another state", s)
+                    continue
+                # (b) a value whose evaluation is not visible here: paired with the point write in the same block
+                blk = _block_of(s)
+                pw = [b for b in blk if isinstance(b, ast.Assign) and path_of(b.targets[0]) == POINT]
+                if not pw:
+                    chk.fail(rule, inst, site(repo, s), f"`{unparse(s)[:80]}` updates the cache without the current point being updated in the same block "
+                             f"(point and cache can drift apart)", s)
+                    continue
+                chk.ok(rule, inst, site(repo, s), "paired with the write of self.current_point in the same block")
     return n
